@@ -17,7 +17,8 @@ RULE = ("case = (generator type, construction path, jds, sizes, callbacks, motif
         "the whole oracle tree is walked (n! answers per shuffle, every other random entry point is an error or, for "
         "randrange/choice/randint, a uniform branch), so one evaluation = up to 576 runs of the real generator; "
         "compared: multiset of (callback calls) over all leaves vs the model over the Coq sample space, shuffle "
-        "protocol on every leaf. Non-trivial = at least two distinct placements; distinct by (type, jds, sizes, indices)")
+        "protocol on every leaf; the corpus (judged first) holds the four-degree-1-vertices example and 21 inputs with a vertex "
+        "of degree >= 2 in a topology (degenerate placements must carry their full weight). Non-trivial = at least two distinct placements; distinct by (type, jds, sizes, indices)")
 EXHAUSTIVE = {"quick": True, "thorough": True}
 EXPLANATION = ("counting theorems (all stub lists, any length) in Props/C03.v; the histogram checker is proved to DECIDE "
                "'flat and complete' and to accept the model's histogram (also in the form c03_check computes it, from the "
@@ -47,6 +48,7 @@ LEVEL_TEXT = (
 LEVEL_NOTE = ("Trusted: uniformity and independence of CPython's random.shuffle; Coq kernel; extraction + driver + "
               "harness. The statement is about the law induced by a uniform shuffle, not about the Mersenne Twister.")
 IMPL_TIMEOUT = 60.0
+BATCH = 150     # core stops after the first batch that holds a concrete violation
 
 MAX_SHUFFLE = 5
 MAX_LEAVES = 4000
@@ -168,6 +170,17 @@ def corpus():
                 "names": [[1], [2]], "mis": []})
     out.append({"tag": G.MOTIFS, "via": "factory", "jds": [[1, 2], [1, 0], [2, 0]], "sizes": [2, 1], "codes": [G.STAR],
                 "names": [[1, 2]], "mis": [[0, 1]]})
+    # a vertex of degree >= 2 in a topology: some outcomes put two of its stubs into ONE motif (degenerate placement,
+    # self-loop).  Those placements carry exactly the configuration-model weight -- a generator that re-draws,
+    # repairs or conditionally re-shuffles them is not uniform (C03-r2-3).  Cheap trees, so they are judged first.
+    for tag, via in ((G.FAST, "direct"), (G.NETWORK, "main"), (G.MOTIFS, "direct")):
+        mis1 = [[0]] if tag == G.MOTIFS else []
+        for jds, size in (([[2], [1], [1]], 2), ([[3], [1]], 2), ([[2], [2]], 2), ([[2], [1]], 3), ([[2], [1], [1]], 4),
+                          ([[2], [1], [1], [1]], 5)):
+            out.append({"tag": tag, "via": via, "jds": jds, "sizes": [size], "codes": [G.CLIQUE], "names": [[1]],
+                        "mis": mis1})
+        out.append({"tag": tag, "via": via, "jds": [[2, 1], [1, 1], [1, 0]], "sizes": [2, 2], "codes": [G.CLIQUE, G.CLIQUE],
+                    "names": [[1], [2]], "mis": [[0], [1]] if tag == G.MOTIFS else []})
     return out
 
 
